@@ -6,10 +6,13 @@ import RawPanelVerif.Driver.Lifecycle
 Driver glue for `gorwp.run` records (C19).
 
 * `H1/H0:<clause>`: `Spec.Gorwp.check` on the observation.
-* `EQ/NE`: the observation equals what the model computes: invocation log = `Gorwp.dispatch` (exact order),
-  ack count, final state.  The reader model has the Boolean `strict` (over-limit branch returns) and the loop
-  model admits a stall when handlers feed more than `cap` sends back (pinned) — the driver accepts either variant
-  and reports which one it saw as a branch tag (`B:reader=…`, `B:stalled`).
+* `EQ/NE`: the observation equals what the model computes: `Connect`'s result = `Gorwp.connect` on the course of the
+  initialisation window, invocation log = `Gorwp.dispatchDyn` (exact order) over what the reader forwards
+  (`Gorwp.readerKeeps`), ack count, final state.  The model has Boolean variants — `strict` (over-limit branch
+  returns), `dropAck` (the binary reader drops a message whose flow field is ACK), `strictInit` (a cancelled context
+  during initialisation is an error) — and the loop model admits a stall when handlers feed more than `cap` sends back
+  (pinned); the driver accepts either variant and reports which one it saw as a branch tag (`B:reader=…`,
+  `B:connect=…`, `B:stalled`).
 -/
 namespace RawPanelVerif.Driver.Gorwp
 open RawPanelVerif RawPanelVerif.Wire RawPanelVerif.Gorwp RawPanelVerif.GorwpBridge
@@ -24,6 +27,7 @@ inductive RItem
   | over (len : Nat)
   | trunc (n : Nat)
   | wait
+  | bind (k : Gorwp.Kind) (id : Nat)
   deriving Repr
 
 def parseEventItem (kind : Char) (rest : String) : Option Event := do
@@ -43,7 +47,15 @@ def parseEventItem (kind : Char) (rest : String) : Option Event := do
   | 'n' => pure { id }
   | _ => none
 
-def parseItem (it : String) : Option RItem :=
+def parseKind : Char → Option Gorwp.Kind
+  | 't' => some .trigger
+  | 'b' => some .binary
+  | 'p' => some .pulsed
+  | 'a' => some .absolute
+  | 'i' => some .intensity
+  | _ => none
+
+def parseItemPlain (it : String) : Option RItem :=
   match it.toList with
   | 'e' :: k :: rest => (parseEventItem k (String.ofList rest)).map (fun e => .msg { events := [e] } 0)
   | 'B' :: rest =>
@@ -67,7 +79,18 @@ def parseItem (it : String) : Option RItem :=
   | 'w' :: _ => some .wait
   | ['P'] => some .wait     -- the panel stops reading its socket
   | ['R'] => some .wait     -- … reads again
+  | 'K' :: k :: rest => do pure (.bind (← parseKind k) (← (String.ofList rest).toNat?))
   | _ => none
+
+/-- `A` = a message with flow field ACK; `A<item>` = the message of `<item>` with the flow field set to ACK -/
+def parseItem (it : String) : Option RItem :=
+  match it.toList with
+  | ['A'] => some (.msg { flow := .ack } 0)
+  | 'A' :: rest =>
+    match parseItemPlain (String.ofList rest) with
+    | some (.msg m n) => some (.msg { m with flow := .ack } n)
+    | _ => none
+  | _ => parseItemPlain it
 
 def parseHist (h : String) : Option (List RItem) :=
   if h = "-" ∨ h = "" then some [] else ((h.splitOn ";").filter (· ≠ "")).mapM parseItem
@@ -94,14 +117,28 @@ def json0 : List Nat := "{\"title\":\"T0\",\"HWc\":[{\"id\":1,\"type\":1},{\"id\
 def svg0 : List Nat := "<svg xmlns=\"http://www.w3.org/2000/svg\" width=\"10\" height=\"10\"></svg>".toUTF8.toList.map (·.toNat)
 def asciiBytes (s : String) : List Nat := s.toUTF8.toList.map (·.toNat)
 
+/-- the connection ends (or a frame stalls) during initialisation instead of the panel completing its answer -/
+def initEnds (variant : String) : Bool := variant = "close0" ∨ variant = "close2" ∨ variant = "overlimit" ∨ variant = "stall"
+
 def initMsgs (variant : String) : List (OutMsg × Nat) :=
   let info : PanelInfo := { model := if variant = "nomodel" then [] else asciiBytes "M1",
                             serial := if variant = "noserial" then [] else asciiBytes "S1",
                             name := if variant = "noname" then [] else asciiBytes "N1" }
   let topo : Topo := { json := if variant = "nojson" then [] else json0,
                        svg := if variant = "nosvg" ∨ variant = "late" then [] else svg0 }
+  if initEnds variant then (if variant = "close0" then [] else [({ info := some info }, 0)]) else
   [({ info := some info }, 0), ({ avail := some [(1, 1)] }, 0)]
   ++ (if topo.json = [] ∧ topo.svg = [] then [] else [({ topo := some topo }, 2)])
+
+/-- the possible courses of the initialisation window as `init`'s select can see them.  close0 / close2 / overlimit:
+the reader fails (EOF / over-limit header) and `listen` cancels the context — before or after the dispatcher got to the
+identity message; stall (binary): the reader's 2 s payload deadline and the 2 s window race; otherwise the timer ends
+the window (if the fourth item has not arrived before). -/
+def initLins (ascii : Bool) (variant : String) : List (List InitEv) :=
+  let ms := (initMsgs variant).map (fun p => InitEv.dispatched p.1)
+  if variant = "close0" ∨ variant = "close2" ∨ variant = "overlimit" then [ms ++ [.ctxDone], [.ctxDone]]
+  else if variant = "stall" then (if ascii then [ms ++ [.windowClosed]] else [ms ++ [.windowClosed], ms ++ [.ctxDone]])
+  else [ms ++ [.windowClosed]]
 
 /-- messages the client's reader hands to the dispatcher; `strict` = over-limit ends the connection -/
 def modelHistory (strict : Bool) : List RItem → List OutMsg
@@ -111,6 +148,18 @@ def modelHistory (strict : Bool) : List RItem → List OutMsg
   | .over len :: r => if len ≥ Gen.gorwpFrameLimit ∧ !strict then modelHistory strict r else []
   | .trunc _ :: _ => []
   | .wait :: r => modelHistory strict r
+  | .bind .. :: r => modelHistory strict r
+
+/-- the run of registrations and events: what the reader forwards (`dropAck`) in wire order, the harness's `Bind*`
+calls where the script has them -/
+def dynHistory (strict dropAck : Bool) : List RItem → List DynItem
+  | [] => []
+  | .msg m _ :: r => (if readerKeeps dropAck m then m.events.map DynItem.event else []) ++ dynHistory strict dropAck r
+  | .burst n id :: r => List.replicate n (DynItem.event { id, binary := some { pressed := true, edge := 0 } }) ++ dynHistory strict dropAck r
+  | .over len :: r => if len ≥ Gen.gorwpFrameLimit ∧ !strict then dynHistory strict dropAck r else []
+  | .trunc _ :: _ => []
+  | .wait :: r => dynHistory strict dropAck r
+  | .bind k id :: r => DynItem.bind k id :: dynHistory strict dropAck r
 
 open Spec.Gorwp in
 def specItems : List RItem → List Item
@@ -120,6 +169,7 @@ def specItems : List RItem → List Item
   | .over len :: r => Item.broken (len ≥ Gen.gorwpFrameLimit) :: specItems r
   | .trunc _ :: r => Item.broken false :: specItems r
   | .wait :: r => Item.wait :: specItems r
+  | .bind k id :: r => Item.bind (toSKind k) id :: specItems r
 
 /-! ### observation -/
 partial def parseSummary (cs : List Char) (e : Event) : Option Event :=
@@ -178,6 +228,7 @@ structure RObs where
   tlast : Nat := 0
   dataRaces : Nat := 0
   bindRace : Bool := false
+  isInit : Bool := true
 
 def parseObs (impl : String) : Option RObs := do
   let kv := kvOf ((impl.splitOn " ").filter (· ≠ ""))
@@ -193,22 +244,23 @@ def parseObs (impl : String) : Option RObs := do
   pure { initOk := true, tconn := kvNat kv "tconn" 0, inv, acks := kvNat kv "acks" 0, fb := kvNat kv "fb" 0,
          model := g "model", serial := g "serial", name := g "name", tj := g "tj", sv := g "sv",
          tn := ((kvGet kv "tn").bind parseInt).getD (-1), tg := (kvGet kv "tg").getD "-", tf := (kvGet kv "tf").getD "-", av, tlast := kvNat kv "tlast" 0,
-         dataRaces := kvNat kv "datarace" 0, bindRace := kvNat kv "bindrace" 0 == 1 }
+         dataRaces := kvNat kv "datarace" 0, bindRace := kvNat kv "bindrace" 0 == 1, isInit := kvNat kv "isinit" 1 == 1 }
 
 def isPrefixOf {α} [BEq α] : List α → List α → Bool
   | [], _ => true
   | _, [] => false
   | a :: as, b :: bs => a == b && isPrefixOf as bs
 
-/-- does the observation equal the model's outputs for the reader variant `strict`? -/
-def agrees (b : Bindings) (initv : String) (items : List RItem) (fb : Bool) (o : RObs) (strict : Bool) : Bool × Bool :=
-  let h := modelHistory strict items
+/-- does the observation equal the model's outputs for the reader variants `strict` / `dropAck`? -/
+def agrees (b : Bindings) (initv : String) (items : List RItem) (fb : Bool) (o : RObs) (strict dropAck : Bool) : Bool × Bool :=
+  let h := readerView dropAck (modelHistory strict items)
   let all := (initMsgs initv).map (·.1) ++ h
   let st := finalState {} all
-  let inv := dispatch b h
+  let inv := dispatchDyn b (dynHistory strict dropAck items)
   -- model: the topology object is a fresh parse of `topoSrc` (= the stored JSON)
   let stateOk := o.tg = o.tf ∧ o.tj = st.topoSrc ∧ o.model = st.model ∧ o.serial = st.serial ∧ o.name = st.name ∧ o.tj = st.topoJSON ∧ o.sv = st.topoSVG
     ∧ (o.av.all (fun (k, v) => lookupAvail st k = some v)) ∧ (st.avail.all (fun (k, _) => (o.av.find? (·.1 = k)).isSome))
+    ∧ o.isInit = isInitialized st
   -- a broken frame shuts the client down: messages queued right before it may be dropped (a prefix is dispatched)
   let endsBroken := items.any (fun i => match i with | .trunc _ => true | .over len => strict ∨ len < Gen.gorwpFrameLimit | _ => false)
   let full := if endsBroken then isPrefixOf o.inv inv else decide (o.inv = inv) ∧ o.acks = acks h ∧ stateOk
@@ -240,26 +292,42 @@ def step (cmd : String) (args : List String) (impl : String) : String :=
       let sc : Spec.Gorwp.Script :=
         { ascii := mode = "asc",
           initItems := (initMsgs initv).flatMap (fun (m, n) => (toItems m).map (fun i => match i with | .topo j s _ => Spec.Gorwp.Item.topo j s n | x => x)),
+          initEnded := initEnds initv ∧ !(initv = "stall" ∧ mode = "asc"),
           bind := toSBindings b, feedback := fb, hist := specItems items }
       let so : Spec.Gorwp.Obs :=
         { initOk := o.initOk, tconn := o.tconn, inv := o.inv.map toSInv, acks := o.acks, model := o.model, serial := o.serial,
           name := o.name, tj := o.tj, sv := o.sv, tn := o.tn, tg := o.tg, tf := o.tf, av := o.av, tlast := o.tlast, dataRaces := o.dataRaces, bindRace := o.bindRace }
       let hs := match Spec.Gorwp.check sc so with | none => "H1" | some c => s!"H0:{c}"
-      if !o.initOk then
-        -- model: Connect fails iff the state after the initial answers is not initialised
-        let st := finalState {} ((initMsgs initv).map (·.1))
-        if isInitialized st then s!"NE {hs} model:init=ok {tags}" else s!"EQ {hs} {tags}"
+      -- model: Connect's result = `connect` on one of the possible courses of the initialisation window, for the pinned
+      -- `init` (a cancelled context is success) or the repaired one
+      let lins := initLins (mode = "asc") initv
+      let pinnedOk := lins.any (fun l => connect false l = o.initOk)
+      let strictOk := lins.any (fun l => connect true l = o.initOk)
+      let ctag := if pinnedOk ∧ strictOk then "" else if pinnedOk then " B:connect=ok-on-cancelled-context" else " B:connect=strict"
+      if !pinnedOk ∧ !strictOk then s!"NE {hs} model:init={if o.initOk then "err" else "ok"} {tags}"
+      else if !o.initOk then s!"EQ {hs} {tags}{ctag}"
+      else if initEnds initv then
+        -- `Connect` returned success on a lost connection: the state is that of a prefix of what arrived; nothing follows
+        let ms := (initMsgs initv).map (·.1)
+        let sts := (List.range (ms.length + 1)).map (fun k => finalState {} (ms.take k))
+        if o.inv.isEmpty ∧ sts.any (fun st => o.model = st.model ∧ o.serial = st.serial ∧ o.name = st.name ∧ o.tj = st.topoJSON
+            ∧ o.sv = st.topoSVG ∧ o.isInit = isInitialized st) then s!"EQ {hs} {tags}{ctag}"
+        else s!"NE {hs} model:state-of-a-prefix-of-the-initial-answer {tags}{ctag}"
       else
-        let st0 := finalState {} ((initMsgs initv).map (·.1))
-        if !isInitialized st0 then s!"NE {hs} model:init=err {tags}" else
         let hasOver := items.any (fun i => match i with | .over len => len ≥ Gen.gorwpFrameLimit | _ => false)
-        let (fullP, stallP) := agrees b initv items fb o false
-        let (fullS, stallS) := agrees b initv items fb o true
-        if fullP ∧ (!hasOver ∨ !fullS) then s!"EQ {hs} {tags}" ++ (if hasOver then " B:reader=keeps-parsing" else "")
-        else if fullS then s!"EQ {hs} {tags} B:reader=strict"
-        else if stallP ∨ stallS then s!"EQ {hs} {tags} B:stalled@{o.inv.length}"
+        -- the binary reader of the code as it is drops a message whose flow field is ACK with all it carries
+        let ackLoad := items.any (fun i => match i with | .msg m _ => m.flow = .ack ∧ !pureAck m | _ => false)
+        let dropPinned := mode ≠ "asc"
+        let atag := if ackLoad ∧ dropPinned then " B:reader=drops-ack-message" else ""
+        let (fullP, stallP) := agrees b initv items fb o false dropPinned
+        let (fullS, stallS) := agrees b initv items fb o true dropPinned
+        if fullP ∧ (!hasOver ∨ !fullS) then s!"EQ {hs} {tags}{ctag}{atag}" ++ (if hasOver then " B:reader=keeps-parsing" else "")
+        else if fullS then s!"EQ {hs} {tags}{ctag}{atag} B:reader=strict"
+        else if stallP ∨ stallS then s!"EQ {hs} {tags}{ctag}{atag} B:stalled@{o.inv.length}"
+        else if ackLoad ∧ dropPinned ∧ ((agrees b initv items fb o false false).1 ∨ (agrees b initv items fb o true false).1) then
+          s!"EQ {hs} {tags}{ctag} B:reader=keeps-ack-message"
         else
-          let inv := dispatch b (modelHistory false items)
-          s!"NE {hs} model:ninv={inv.length},acks={acks (modelHistory false items)} {tags}"
+          let inv := dispatchDyn b (dynHistory false dropPinned items)
+          s!"NE {hs} model:ninv={inv.length},acks={acks (readerView dropPinned (modelHistory false items))} {tags}"
 
 end RawPanelVerif.Driver.Gorwp
